@@ -6,6 +6,7 @@
    equal to / simulated by Path.get_extracted_path, Path.create_file, Pool.pool_write, Path.create_all +
    Pool.append_blocks_pool (= extract_linear_pool) and CliExtract.extract_listed_loop, and carries the confinement
    theorem of C16 over to the translated `extract`.  The trusted primitive table is in tools/src2v3_cli.py. *)
+From MLA Require Import Limit.
 From MLA Require Import Base Stream Blocks Reader LinearProofs Path PathDir PathProofs PathLinks PathDirProofs Pool PoolProofs Cli CliProofs
   CliExtract CliExtractProofs CliExtractOut SrcTie3Reader SrcTie3Linear SrcTie3CliCopy.
 From MLAGen Require Src3d Src3l Src3x.
@@ -181,6 +182,7 @@ Proof.
 Qed.
 
 Section Tie.
+  Context {LIM : Limit}.
   Variable S : Stream.
   Variables FNMAX TS TC TA TE : N.
   Variables site_index site_unwrap : N.
